@@ -205,12 +205,18 @@ FINER = ["county_fips", "county_classification", "unit"]
 def api_histories(run, n):
     rng = run.rng
     for i_ in range(n):
+        # a district election (the contests are the (state, district) pairs; `postal_code` and `district` both name the contest level):
+        # the fifth history of a pass and a fifth of the later ones
+        dist = i_ == 4 or (i_ > 4 and rng.random() < 0.2)
         e = E.gen_election(rng, size=rng.choice(["small", "medium"]), roles=["reporting"] * 6 + ["partial"] * 3 + ["zero-percent"],
-                           min_reporting=14)
+                           min_reporting=14, district=dist, unexpected=not dist)
         B = rng.choice([3, 5, 10])
         lists = [["postal_code"]]
         finer = list(FINER)
-        if rng.random() < 0.5:
+        if dist:
+            lists = [["postal_code"], ["district"], ["postal_code", "district"], ["district", "postal_code"],
+                     ["district", "county_fips", "postal_code"], ["unit", "postal_code", "district"]]
+        if not dist and rng.random() < 0.5:
             # a state-level office whose data also carry districts (e.g. a statewide race reported by congressional district): the
             # district aggregate is then one more finer aggregate
             e.pre["district"] = [rng.choice(["01", "02", "03"]) for _ in range(len(e.pre))]
@@ -220,20 +226,26 @@ def api_histories(run, n):
         if "district" in finer and "district" not in fin:
             fin[0] = "district"
         state_office_with_districts = "district" in finer
-        for perm in rng.sample(list(itertools.permutations(["postal_code"] + fin)), min(3, math.factorial(k + 1))):
-            lists.append(list(perm))
+        if not dist:
+            for perm in rng.sample(list(itertools.permutations(["postal_code"] + fin)), min(3, math.factorial(k + 1))):
+                lists.append(list(perm))
         contest_names = sorted(set(e.states) | set(e.cur["postal_code"]))
+        if dist:
+            contest_names = sorted({f"{r['postal_code']}_{r['district']}" for r in e.pre.to_dict(orient="records")})
         nat = {s: rng.choice([1, 3, 10, 29]) for s in contest_names}
         # race calls and call-stops name contests; they are passed along with every aggregate list of the history (the first
         # histories of a pass: called for the left, for the right + a stop, a stop only, none; later ones at random)
         kind = ["lhs", "rhs+stop", "stop", "none"][i_] if i_ < 4 else rng.choice(["lhs", "rhs+stop", "stop", "none", "none"])
-        calls = {"lhs": {"lhs_called_contests": [e.states[0]]},
-                 "rhs+stop": {"rhs_called_contests": [e.states[0]], "stop_model_call": [e.states[-1]]},
-                 "stop": {"stop_model_call": [e.states[-1]]}, "none": {}}[kind]
+        if dist:
+            kind = rng.choice(["lhs", "rhs+stop", "lhs", "rhs+stop", "stop"])
+        first, last = (contest_names[0], contest_names[-1]) if dist else (e.states[0], e.states[-1])
+        calls = {"lhs": {"lhs_called_contests": [first]},
+                 "rhs+stop": {"rhs_called_contests": [first], "stop_model_call": [last]},
+                 "stop": {"stop_model_call": [last]}, "none": {}}[kind]
         alphas = [0.5, 0.9]
         results = []
         case = {"api": True, "election": e.describe(), "B": B, "aggregate_lists": lists, "weights": nat, "calls": calls,
-                "state_level_office_with_district_aggregate": state_office_with_districts}
+                "state_level_office_with_district_aggregate": state_office_with_districts, "district_election": dist}
         for aggs in lists:
             res = E.run_client(e, estimands=["margin"], alphas=alphas, pi_method="bootstrap", aggregates=aggs,
                                params=E.boot_params(B=B), features=["baseline_normalized_margin"], keep_client=True, extra=calls)
@@ -249,7 +261,12 @@ def api_histories(run, n):
                     outs.append([float(df["agg_pred"].iloc[0])] + [float(df[f"{b}_{a}"].iloc[0]) for a in alphas for b in ("lower", "upper")])
                 except Exception as ex:
                     outs.append({"raises": type(ex).__name__, "msg": str(ex)[:200]})
-            results.append({"out": outs, "state": res["tables"]["state_data"][["postal_code", "pred_margin"]].values.tolist()})
+            top = res["tables"].get("state_data", res["tables"].get("district_data"))
+            if dist:
+                state = [[f"{a}_{b}", m] for a, b, m in top[["postal_code", "district", "pred_margin"]].values.tolist()]
+            else:
+                state = top[["postal_code", "pred_margin"]].values.tolist()
+            results.append({"out": outs, "state": state})
         run.case(case, True)
         run.count("api histories")
         if any("raises" in r for r in results):
@@ -294,7 +311,7 @@ def extract(run):
 
 def explore(run, driver, budget):
     run.info["rule"] = RULE
-    n = {"quick": (400, 5), "thorough": (15000, 120), "search": (3000, 25)}[budget]
+    n = {"quick": (400, 6), "thorough": (15000, 120), "search": (3000, 25)}[budget]
     stage(run, driver, n[0])
     api_histories(run, n[1])
 
